@@ -229,17 +229,44 @@ func c05Tasks(tier string) []Task {
 	cs := c200
 	cs.Index = 2
 	cfgs = append(cfgs, c200, cb, cs)
+	blk := blockCfg()
+	blkB := blk
+	blkB.Index = 1
 	if tier != "thorough" {
-		return c05Level(cfgs, 2, 4, 2)
+		return append(c05Level(cfgs, 2, 4, 2), c05LevelA("block-", []Cfg{blk, blkB}, c05BlockPre, c05BlockStage, 1, 3, 1)...)
 	}
 	cm := defaultCfg
 	cm.IO = 1
 	cfgs = append(cfgs, cm)
 	// long staging sequences after short pre-histories, and the quick tier's staging after longer pre-histories
-	return append(c05Level(cfgs, 2, 5, 3), c05Level(cfgs, 3, 4, 2)...)
+	tasks := append(c05Level(cfgs, 2, 5, 3), c05Level(cfgs, 3, 4, 2)...)
+	blkM := blk
+	blkM.IO = 1
+	return append(tasks, c05LevelA("block-", []Cfg{blk, blkB, blkM}, c05BlockPre, c05BlockStage, 2, 4, 2)...)
 }
 
 func c05Level(cfgs []Cfg, preDepth, stageDepth, dev int) []Task {
+	return c05LevelA("", cfgs, c05Pre, c05Stage, preDepth, stageDepth, dev)
+}
+
+// block family: the batch flush (one write of several records, a running cursor) next to 32 KiB block boundaries -
+// a staged record that ends 2-3 bytes before a block end (the tail is padded), a record of two chunks, records behind them
+func c05BlockPre() []Op {
+	return []Op{{K: "put", Key: "a", VC: "S"}, {K: "put", Key: "b", VC: "F", Arg: 20000}}
+}
+
+func c05BlockStage() []Op {
+	return []Op{
+		{K: "put", Key: "b", VC: "B", Arg: 11}, // 11 = 3 + the 8 further bytes of a batch id in the record header
+		{K: "put", Key: "a", VC: "S"},
+		{K: "put", Key: "c", VC: "S"},
+		{K: "del", Key: "a"},
+		{K: "put", Key: "c", VC: "F", Arg: 40000, Dev: true},
+		{K: "put", Key: "b", VC: "B", Arg: 8, Dev: true}, // ends exactly on the block boundary
+	}
+}
+
+func c05LevelA(prefix string, cfgs []Cfg, preAlpha, stageAlpha func() []Op, preDepth, stageDepth, dev int) []Task {
 	var pres [][]Op
 	var gen func(p []Op)
 	gen = func(p []Op) {
@@ -247,7 +274,7 @@ func c05Level(cfgs []Cfg, preDepth, stageDepth, dev int) []Task {
 		if len(p) == preDepth {
 			return
 		}
-		for _, o := range c05Pre() {
+		for _, o := range preAlpha() {
 			gen(append(p, o))
 		}
 	}
@@ -257,10 +284,10 @@ func c05Level(cfgs []Cfg, preDepth, stageDepth, dev int) []Task {
 		for _, pre := range pres {
 			cfg, pre := cfg, pre
 			syncOpt := ci%2 == 1 // alternate configurations use BatchOptions{Sync:true}
-			level := fmt.Sprintf("pre<=%d-stage%d-dev%d", preDepth, stageDepth, dev)
+			level := fmt.Sprintf("%spre<=%d-stage%d-dev%d", prefix, preDepth, stageDepth, dev)
 			tasks = append(tasks, Task{Level: level, Name: fmt.Sprintf("%s sync=%v pre=[%s]", cfg, syncOpt, traceString(pre)), Fn: func(res *TaskResult) {
 				c05BatchSync = syncOpt
-				alpha := c05Stage()
+				alpha := stageAlpha()
 				enumSeq(alpha, stageDepth, dev, nil, func(seq []Op) bool {
 					ops := append(append(append([]Op{}, pre...), Op{K: "begin"}), seq...)
 					announce(func() string { return cfg.String() + " :: " + traceString(ops) })
